@@ -29,6 +29,29 @@ DataEq(s, o)   == \A t \in DOMAIN s.tabs : ObsBagEq(s.tabs[t].rows, o.T[t])
 StateEq(s, o)  == SchemaEq(s, o) /\ DataEq(s, o) /\ s.txn.active = o.txn
 Adopt(s, o)    == [s EXCEPT !.tabs = [t \in DOMAIN s.tabs |-> [s.tabs[t] EXCEPT !.rows = o.T[t]]]]
 
+\* ---------- C15: index structures are a function of the table contents ----------
+\* Checked on the observed state alone (when the harness logged index contents): every user index
+\* holds exactly the keys of the table's current rows mapped to their current positions, and the
+\* constraint hash indexes hold exactly the non-NULL keys.
+ColPos(o, t, c) == CHOOSE i \in 1..Len(o.C[t]) : o.C[t][i] = c
+IdxKeyVal(v, plen) == IF v.t = "s" /\ plen > 0 THEN [v EXCEPT !.s = PrefixStr(v.s, plen)] ELSE v
+ExpUserIndex(o, ix) ==
+   LET rows == o.T[ix.t]
+       key(i) == [j \in 1..Len(ix.cols) |-> IdxKeyVal(rows[i][ColPos(o, ix.t, ix.cols[j].c)], ix.cols[j].plen)]
+   IN { [k |-> key(i), p |-> { j - 1 : j \in { j \in 1..Len(rows) : key(j) = key(i) } }] : i \in 1..Len(rows) }
+ObsIndex(ents) == { [k |-> ents[i][1], p |-> Range(ents[i][2])] : i \in 1..Len(ents) }
+UserIndexOk(o) == \A i \in 1..Len(o.ix) : o.ix[i].t \in DOMAIN o.T =>
+                    (o.ix[i].n \in DOMAIN o.ic /\ ObsIndex(o.ic[o.ix[i].n]) = ExpUserIndex(o, o.ix[i]))
+ExpHash(o, t, cols) ==
+   LET rows == o.T[t] key(i) == [j \in 1..Len(cols) |-> rows[i][ColPos(o, t, cols[j])]] IN
+   { [k |-> key(i), p |-> i - 1] : i \in { i \in 1..Len(rows) : ~HasNullKey(key(i)) } }
+ObsHash(ents) == { [k |-> ents[i][1], p |-> ents[i][2]] : i \in 1..Len(ents) }
+HashIndexOk(s, o) == \A t \in DOMAIN s.tabs : (t \in DOMAIN o.hx /\ t \in DOMAIN o.T) =>
+     /\ (s.tabs[t].pk # <<>> => ObsHash(o.hx[t].pk) = ExpHash(o, t, s.tabs[t].pk))
+     /\ Len(o.hx[t].uq) = Len(s.tabs[t].uqs)
+     /\ \A u \in 1..Len(s.tabs[t].uqs) : ObsHash(o.hx[t].uq[u]) = ExpHash(o, t, s.tabs[t].uqs[u])
+IndexInv(s, o) == ("ic" \in DOMAIN o) => (UserIndexOk(o) /\ HashIndexOk(s, o))
+
 Init == st = InitSt /\ l = 1 /\ bad = <<>> /\ synced = TRUE
         /\ cnt = [ok |-> 0, known |-> 0, unmodelled |-> 0, skipped |-> 0, queries |-> 0]
 
@@ -56,7 +79,9 @@ Step(e) ==
          isQ     == e.a.a = "q" /\ exp.out = "ok" /\ outOk
          rowsOk  == ~isQ \/ AcceptRes(e.a.q, EvalQ(e.a.q, DbOf(st), <<>>), e.rows)
          cntOk   == ~(e.a.a \in {"del", "upd", "ins", "inssel"} /\ exp.out = "ok" /\ outOk) \/ e.cnt = exp.cnt
-         what    == IF ~outOk THEN "out" ELSE IF ~stOk THEN "state" ELSE IF ~rowsOk THEN "rows" ELSE IF ~cntOk THEN "cnt" ELSE ""
+         idxOk   == ~(outOk /\ stOk) \/ IndexInv(exp.st, o)
+         what    == IF ~outOk THEN "out" ELSE IF ~stOk THEN "state" ELSE IF ~rowsOk THEN "rows" ELSE IF ~cntOk THEN "cnt"
+                    ELSE IF ~idxOk THEN "index" ELSE ""
          dev     == IF what = "" THEN "" ELSE Deviation(st, e, exp, what)
          base    == IF outOk THEN exp.st ELSE st
          want    == IF what = "rows" THEN EvalQ(e.a.q, DbOf(st), <<>>).rows
@@ -65,7 +90,7 @@ Step(e) ==
         /\ cnt' = [cnt EXCEPT !.ok = IF what = "" THEN @ + 1 ELSE @,
                               !.known = IF what # "" /\ dev # "" THEN @ + 1 ELSE @,
                               !.queries = IF isQ THEN @ + 1 ELSE @]
-        /\ IF what \in {"", "rows", "cnt"} THEN st' = exp.st /\ synced' = TRUE
+        /\ IF what \in {"", "rows", "cnt", "index"} THEN st' = exp.st /\ synced' = TRUE
            ELSE IF SchemaEq(base, o) /\ base.txn.active = o.txn THEN st' = Adopt(base, o) /\ synced' = TRUE
            ELSE st' = st /\ synced' = FALSE
 
